@@ -162,15 +162,18 @@ def _terminal(case_id, res, seed, replay_dir, log):
     def attempts(run):
         st = [p for p in run["it"].probes if p["tag"] == "step"]
         er = [p for p in run["it"].probes if p["tag"] == "err"]
-        return [(_G(a), _arg(a, 0), _arg(a, 1), _arg(e, 0)) for a, e in zip(st, er)]
+        # (guard, t, dt, verdict, [atol, rtol, damp seen by the error estimate, damp seen by solver.step])
+        return [(_G(a), _arg(a, 0), _arg(a, 1), _arg(e, 0), [_arg(e, 3), _arg(e, 4), _arg(e, 5), _arg(a, 4)]) for a, e in zip(st, er)]
     aa, bb = attempts(ra), attempts(rb)
 
     def pos(lst, i):
         return z3.Sum([z3.If(lst[k][0], 1, 0) for k in range(i)]) if i else z3.IntVal(0)
-    viol = []
-    for i, (ga, ta, da, ea) in enumerate(aa):
-        for j, (gb, tb, db, eb) in enumerate(bb):
-            viol.append(z3.And(ga, gb, pos(aa, i) == pos(bb, j), z3.Or(ta != tb, da != db, ea != eb)))
+    viol, viol_args = [], []
+    for i, (ga, ta, da, ea, xa) in enumerate(aa):
+        for j, (gb, tb, db, eb, xb) in enumerate(bb):
+            same = z3.And(ga, gb, pos(aa, i) == pos(bb, j))
+            viol.append(z3.And(same, z3.Or(ta != tb, da != db, ea != eb)))
+            viol_args.append(z3.And(same, z3.Or([u != v for u, v in zip(xa, xb)])))
     na = z3.Sum([z3.If(x[0], 1, 0) for x in aa]); nb = z3.Sum([z3.If(x[0], 1, 0) for x in bb])
 
     def sc_(v):
@@ -180,6 +183,7 @@ def _terminal(case_id, res, seed, replay_dir, log):
     ta_, na_, xa_ = ra["outs"]; tb_, nb_, xb_ = rb["outs"]
     obligations = [("k-th executed attempt of the terminal-value routine is the save_at routine's (t, dt, verdict)", z3.Or(viol)),
                    ("both routines execute the same number of attempts", na != nb),
+                   ("the k-th attempt of both routines sees the caller's atol, rtol and damp", z3.Or(viol_args)),
                    ("terminal-value outputs (t, num_steps, state) = last entry of the save_at outputs",
                     z3.Or(sc_(ta_) != sc_(tb_[-1]), sc_(na_) != sc_(nb_[-1]), sc_(xa_) != sc_(xb_[-1])))]
     res["states"] = len(aa) + len(bb); res["transitions"] = len(aa) * len(bb)
@@ -191,8 +195,11 @@ def _terminal_compare(ctrl, clip, base, table):
     lb, tsb, nsb = C06.concrete_run(f"save_at/{ctrl}/{clip}/x", base, table)
     sa = [(e["t"], e["dt"]) for e in la if e["tag"] == "step"]
     sb = [(e["t"], e["dt"]) for e in lb if e["tag"] == "step"]
+    xa = [(e.get("tols"), e.get("damp")) for e in la if e["tag"] == "step"]
+    xb = [(e.get("tols"), e.get("damp")) for e in lb if e["tag"] == "step"]
     bad = (len(sa) != len(sb)) or any(abs(x[0] - y[0]) > 1e-12 or abs(x[1] - y[1]) > 1e-12 for x, y in zip(sa, sb)) \
-        or float(np.ravel(nsa)[-1]) != float(np.ravel(nsb)[-1]) or abs(float(np.ravel(tsa)[-1]) - float(np.ravel(tsb)[-1])) > 1e-12
+        or float(np.ravel(nsa)[-1]) != float(np.ravel(nsb)[-1]) or abs(float(np.ravel(tsa)[-1]) - float(np.ravel(tsb)[-1])) > 1e-12 \
+        or xa != xb
     return bad, sa, sb
 
 
